@@ -148,7 +148,7 @@ def split_gradient_at(
         amplitudes=amplitudes2,
         skip_check=True,
     )
-    grad2.delay = time_point
+    grad2.delay = grad.delay + time_point
 
     if trace_enabled():
         t = trace()
